@@ -195,6 +195,8 @@ def fits_bounded_instance(tied_only=False):
         perm = rng.permutation(K)
         mask = rng.rand(F, K, N) < 0.9
         mask[:, :, 0] = True
+        if inp['seed'] % 2:
+            mask[:, :, 1] = False            # a frame in which every source is declared inactive
 
         # the relabelled fit runs on the trainer object of the first fit for odd seeds (a trainer is reusable), else on a new one
         share = bool(inp['seed'] % 2)
@@ -214,7 +216,9 @@ def fits_bounded_instance(tied_only=False):
                            inline_permutation_alignment=ipa)
                 return m.predict(y, emb)
             if which == 'cacgmm-mask':
-                m = trainer(CACGMMTrainer).fit(y, initialization=ii * mm, iterations=it, source_activity_mask=mm, weight_constant_axis=inp['wca'])
+                # tied (uniform) weights for every third scene: no class is preferred a priori
+                m = trainer(CACGMMTrainer).fit(y, initialization=ii * mm, iterations=max(it, 2), source_activity_mask=mm,
+                                               weight_constant_axis=-2 if inp['seed'] % 3 == 0 else inp['wca'])
                 return m.predict(y, source_activity_mask=mm)
             cls = {'cacgmm': CACGMMTrainer, 'cwmm': CWMMTrainer, 'vmfmm': VMFMMTrainer, 'cbmm': CBMMTrainer}.get(which, GMMTrainer)
             kw = {'covariance_type': which[4:]} if which.startswith('gmm') else {}
